@@ -598,6 +598,24 @@ pub fn run_check(spec: &CheckSpec, cfg: &RunCfg) -> i32 {
             if !fresh(&mk(&sm, &f.violation, prelude.clone(), f.levels.clone(), 0)) {
                 sm = f.plan.clone();
             }
+            // shrink the failing plan itself with the prelude fixed (every candidate in its own fresh process)
+            {
+                let fv = f.violation.clone();
+                let pre = prelude.clone();
+                let mut test = |p: &Plan| -> Option<Violation> {
+                    if fresh(&mk(p, &fv, pre.clone(), vec![], 0)) {
+                        Some(fv.clone())
+                    } else {
+                        None
+                    }
+                };
+                let rec: Vec<u8> = match &sm.schedule {
+                    Schedule::Explicit { choices } => choices.clone(),
+                    _ => f.recorded.clone(),
+                };
+                let (s2, _) = shrink::shrink(&sm, &rec, &class, &mut test, Duration::from_secs(45));
+                sm = s2;
+            }
             small = sm;
             v = f.violation.clone();
             out_trace = 0;
